@@ -82,7 +82,7 @@ func (m *StringifiedMessage) encode(d *Decoder, sb *strings.Builder, tagType byt
 		return fmt.Errorf("unknown to read 0x%02x", tagType)
 	case TagByte:
 		b, err := d.r.ReadByte()
-		sb.WriteString(strconv.FormatInt(int64(b), 10) + "B")
+		sb.WriteString(strconv.FormatInt(int64(int8(b)), 10) + "B")
 		return err
 	case TagString:
 		str, err := d.readString()
@@ -127,7 +127,7 @@ func (m *StringifiedMessage) encode(d *Decoder, sb *strings.Builder, tagType byt
 			} else {
 				sb.WriteString(",")
 			}
-			sb.WriteString(strconv.FormatInt(int64(b), 10) + "B")
+			sb.WriteString(strconv.FormatInt(int64(int8(b)), 10) + "B")
 		}
 		sb.WriteString("]")
 	case TagIntArray:
